@@ -475,6 +475,8 @@ func (x *Exec) invoke(fr *frame, st *State, recv Value, m *types.Func, args []Va
 		}
 	}
 	if ct != nil {
+		x.ifaceMethod = m
+		defer func() { x.ifaceMethod = nil }()
 		return x.applyContract(st, ct, nil, append([]Value{recv}, args...), resT, pos)
 	}
 	x.Notes.Uncontracted["invoke "+iq] = true
@@ -536,6 +538,19 @@ func (x *Exec) contractEnv(ct *Contract, callee *ssa.Function, args []Value, st,
 				env.vars[p.Name()] = a
 			}
 		}
+	} else if m := x.ifaceMethod; m != nil && len(args) > 0 {
+		// interface-level contract: the receiver is "self", parameters by their declared names
+		env.vars["self"] = args[0]
+		if sig, ok := m.Type().(*types.Signature); ok {
+			for i := 0; i < sig.Params().Len() && i+1 < len(args); i++ {
+				p := sig.Params().At(i)
+				if p.Name() != "" && p.Name() != "_" {
+					a := args[i+1]
+					a.T = p.Type()
+					env.vars[p.Name()] = a
+				}
+			}
+		}
 	}
 	return env
 }
@@ -574,6 +589,10 @@ func (x *Exec) applyContract(st *State, ct *Contract, callee *ssa.Function, args
 		}
 	}
 	short := name[strings.LastIndex(name, "/")+1:]
+	pcBefore := st.PC
+	if len(ct.Ensures) > 0 && !x.Opt.Paths {
+		defer func() { x.addCallCover(st, pcBefore, short, pos) }()
+	}
 	for _, r := range ct.Requires {
 		g := env.evalBool(r.Expr)
 		x.addObl(st, "pre", short, g, pos, "requires "+r.Text+"  (callee "+name+")")
@@ -582,6 +601,12 @@ func (x *Exec) applyContract(st *State, ct *Contract, callee *ssa.Function, args
 	// havoc the modifies frame
 	for _, m := range ct.Modifies {
 		x.havocTarget(env, st, m)
+	}
+	// ghost fields the callee may change (ghavoc <field> <object>): arbitrary new value
+	for _, g := range ct.GHavocs {
+		o := env.eval(g.Obj.Expr)
+		h := x.comp(st, ghostComp(g.Field), IdxSort)
+		x.setComp(st, ghostComp(g.Field), IdxSort, c.Store(h, x.objRef(o), c.Fresh("ghavoc."+g.Field, IdxSort)))
 	}
 	if !ct.Pure && len(ct.Modifies) == 0 && false {
 		_ = c
@@ -613,6 +638,23 @@ func (x *Exec) applyContract(st *State, ct *Contract, callee *ssa.Function, args
 	for _, gs := range ct.Sets {
 		if gk, ok := x.ghostKeys[gs.By]; ok {
 			st.Env[gk] = post.eval(gs.Expr)
+		}
+	}
+	// ghost field updates: all values are evaluated before any is stored
+	if len(ct.GSets) > 0 {
+		type upd struct {
+			fld      string
+			ref, val *Term
+		}
+		var ups []upd
+		for _, g := range ct.GSets {
+			o := post.eval(g.Obj.Expr)
+			v := post.asInt(post.eval(g.Val.Expr))
+			ups = append(ups, upd{g.Field, x.objRef(o), x.toIdx(v)})
+		}
+		for _, u := range ups {
+			h := x.comp(st, ghostComp(u.fld), IdxSort)
+			x.setComp(st, ghostComp(u.fld), IdxSort, c.Store(h, u.ref, u.val))
 		}
 	}
 	return res
@@ -1034,7 +1076,16 @@ func (x *Exec) loopWrites(fn *ssa.Function, l *loopInfo) (map[string]*Sort, bool
 					if callee == nil {
 						if cc.IsInvoke() {
 							iq := ifaceMethodName(cc.Value.Type(), cc.Method)
-							if ct := x.Prog.Contracts[iq]; ct != nil && (ct.Pure || len(ct.Modifies) == 0) {
+							ct := x.Prog.Contracts[iq]
+							if ct == nil {
+								if sig, ok := cc.Method.Type().(*types.Signature); ok && sig.Recv() != nil {
+									ct = x.Prog.Contracts[ifaceMethodName(sig.Recv().Type(), cc.Method)]
+								}
+							}
+							if ct != nil && (ct.Pure || len(ct.Modifies) == 0) {
+								for _, g := range ct.GSets {
+									out[ghostComp(g.Field)] = IdxSort
+								}
 								continue
 							}
 						}
@@ -1049,6 +1100,12 @@ func (x *Exec) loopWrites(fn *ssa.Function, l *loopInfo) (map[string]*Sort, bool
 						continue
 					}
 					if ct := x.Prog.Contracts[q]; ct != nil && !x.Opt.NoContract[q] {
+						for _, g := range ct.GSets {
+							out[ghostComp(g.Field)] = IdxSort
+						}
+						for _, g := range ct.GHavocs {
+							out[ghostComp(g.Field)] = IdxSort
+						}
 						if ct.Pure {
 							continue
 						}
@@ -1219,4 +1276,18 @@ func hasRefResult(t types.Type) bool {
 		}
 	}
 	return false
+}
+
+// ghostComp names the heap component of an int-valued ghost field (object reference -> value).
+func ghostComp(field string) string { return "O|ghostf$" + field }
+
+// objRef is the identity of the object behind a pointer or an interface value.
+func (x *Exec) objRef(v Value) *Term {
+	switch v.T.Underlying().(type) {
+	case *types.Interface:
+		if len(v.L) >= 2 {
+			return v.L[1]
+		}
+	}
+	return v.L[0]
 }
